@@ -50,12 +50,12 @@ def run(tier, seed, res):
                        "exclusions counted in the labels); their minimal replays under corpus/C41/regress are run separately",
                        "concurrent part: sequential consistency at atomic-operation granularity under dsched"]
     n = 16
-    per = 2500 if quick else 250000
+    per = 2000 if quick else 250000
     jobs = [dict(cmd=[b, "rc"], env=_env({"RC_PARAMS": "seed=%d max_success=%d max_size=100" % (seed * 131 + i, per)}), tag="rc") for i in range(n)]
     wr = core.run_workers(PROP, jobs)
     res.absorb(wr, "seq")
     collect(res, wr)
-    per = 1300 if quick else 130000
+    per = 1000 if quick else 130000
     jobs = [dict(cmd=[b, "rcc"], env=_env({"RC_PARAMS": "seed=%d max_success=%d max_size=100" % (seed * 137 + i, per)}), tag="rcc") for i in range(n)]
     wr = core.run_workers(PROP, jobs)
     res.absorb(wr, "con")
